@@ -304,7 +304,11 @@ CLAIMED = {
        "is Kzz + jitter_val I, INV = [(m - mu_Z)^T; R^T] SOLVE(Kzx) in one two-sided solve, mean = mu_X + INV[0], covariance = Kxx - Kxz SOLVE(Kzx) "
        "+ INV[1:]^T INV[1:] (Delta: no root rows); prior_distribution = N(0, I) of the variational shape; kl_divergence() = "
        "KL(variational_distribution || prior_distribution); Cholesky / MeanField / Delta variational distributions return N(m, tril(C) tril(C)^T) / "
-       "N(m, diag s^2) / a point mass at m. Bounded tier (not counted): every (strategy x distribution) pair (standard, unwhitened, CIQ at tight "
+       "N(m, diag s^2) / a point mass at m; multitask wrappers with the base strategy's output as a symbolic batch of independent GPs: "
+       "IndependentMultitaskVariationalStrategy with task_indices gives mean[i] = mu_{t_i}[i], cov[i, j] = K_{t_i}[i, j] [t_i == t_j]; "
+       "LMCVariationalStrategy.__call__ gives mean[i, t] = sum_l mu_l[i] W[l, t], cov[(i,t),(j,u)] = sum_l K_l[i, j] W[l, t] W[l, u] + jitter_val I in the "
+       "interleaved layout (all tasks) and the same with the selected coefficients (one task per input; _select_lmc_coefficients trusted); both wrappers' "
+       "kl_divergence() = the base KL summed over the configured task / latent dimension (dims -1, -2; batch ranks 1, 2). Bounded tier (not counted): every (strategy x distribution) pair (standard, unwhitened, CIQ at tight "
        "tolerance, batch-decoupled, orthogonally decoupled, grid-interpolation, LMC, independent multitask; Cholesky, mean-field, delta, natural, "
        "tril-natural) on m <= 5, n <= 6, batch ranks 0..2: eval-mode mean / full covariance / KL and training-mode mean / variance against dense "
        "float64 closed forms; whitened = unwhitened for the same q(u); q(u) = p(u) gives the prior and KL = 0; wrappers mix with the stated "
